@@ -7,4 +7,3 @@ import (
 )
 
 type commonSig = common.SignatureData
-
